@@ -1113,7 +1113,9 @@ fn gen_c15(g: &mut G) {
 /// C16: clones at every point, continued in any interleaving, against fresh replays
 fn gen_c16(g: &mut G) {
     let mut kinds: Vec<String> = BLOCK_KINDS.iter().map(|s| s.to_string()).collect();
-    kinds.push("cfbbuf".into());
+    for _ in 0..3 {
+        kinds.push("cfbbuf".into()); // byte cursor + feedback block: the richest state among the Clone types
+    }
     for k in CTR_KINDS.iter().chain(["ofb"].iter()) {
         kinds.push(core_of(k));
         kinds.push(k.to_string());
@@ -1180,7 +1182,17 @@ fn gen_c16(g: &mut G) {
     let n3 = if bytelevel { g.nbytes(bs, 2) } else { g.nblocks(w, 4) * mul };
     // re-create the clone with a spliced source so that it sees different data after the clone point
     g.cmds.pop();
-    g.cmds.push(json!({"op":"clone","o":"c","from":"o","src":{"rand":3}}));
+    if g.rng.chance(1, 2) {
+        // Clone::clone_from into a live instance of the same type that is in a different state
+        // (other IV, other amount of data consumed, hence another in-block offset)
+        let iv2 = g.iv_for(&kind, 6);
+        g.new_obj("c", f, &kind, dir, 0, iv2, json!({"rand":6}), "inner");
+        let pre = if bytelevel { g.rng.range(1, 2 * bs) } else { g.rng.range(1, 3) * mul };
+        if bytelevel { g.bytes("c", pre, false) } else { g.blocks("c", pre, true, false) }
+        g.cmds.push(json!({"op":"clone","o":"c","from":"o","into":"c","src":{"rand":3}}));
+    } else {
+        g.cmds.push(json!({"op":"clone","o":"c","from":"o","src":{"rand":3}}));
+    }
     let p2 = g.composition(n2, if bytelevel { (2 * bs).max(n2 / 4) } else { w + 2 }, bytelevel);
     let p3 = g.composition(n3, if bytelevel { (2 * bs).max(n3 / 4) } else { w + 2 }, bytelevel);
     let (mut i2, mut i3) = (0, 0);
@@ -1256,6 +1268,21 @@ fn gen_c17(g: &mut G) {
         let iv = g.iv_for(&kind, j as u64);
         g.new_obj(&o, f, &kind, dir, *key, iv, json!({"rand": j}), "inner");
         g.op("debug", &o);
+        // special states: the very end of the keystream (remaining = Some(0)), the last blocks, far positions
+        if let Some(bits) = ctr_bits(&kind) {
+            if g.rng.chance(1, 2) {
+                let k = *g.rng.pick(&[0i64, 0, 1, 2]);
+                if kind.ends_with("core") || bits == 128 {
+                    g.cmds.push(json!({"op":"setbpos","o":o,"v":{"end": -k}}));
+                } else {
+                    g.cmds.push(json!({"op":"seek","o":o,"t":"u128","p":{"end": -k * bs as i64}}));
+                }
+                g.op("debug", &o);
+                g.op("rem", &o);
+                g.op("drop", &o);
+                continue;
+            }
+        }
         // the byte-stream aliases are probed only at block boundaries here (known finding C17 otherwise)
         if bytelevel {
             let n = if wrapper { bs * g.rng.range(0, 3) } else { g.nbytes(bs, 3) };
